@@ -15,6 +15,29 @@ CHECKS = {
    technique="Lean 4 proof over regenerated BitVec expressions + exhaustive differential correspondence"),
 }
 
+RBC_NOTE = ("Trusted: Lean kernel (axioms audited), the hand-written receiver/dispatcher models (tied step-exactly to the real rbc.Receiver and the real Scheme.HandleMessage path by the harness), "
+            "regenerated wire expressions, harness + driver parsing. Assumed: authenticated sources (C16), SHA-256 as parameter H (conclusions are modulo an explicit collision), "
+            "one message at a time per instance (mutex), a shared deterministic classifier with 7-bit rounds.")
+CHECKS["C02"] = dict(
+   text="Lean 4 theorem `agreement` over a byte-level transition system: any number of members, any honest subset, corrupted members and outsiders may hand any bytes to any honest member "
+        "at any time in any order; two honest broadcast-class hand-overs for the same sender and round carry equal payloads or an explicit hash collision. Proved by an inductive invariant "
+        "(pinned digests, authenticated acknowledgements, counting lemma) for every N, every adversary, every schedule. The model is tied to the code by step-exact differential runs on real "
+        "receivers and the real dispatcher, plus a direct cross-party monitor under a Byzantine strategy catalogue.",
+   design="4/C02", note=RBC_NOTE, technique="Lean 4 inductive-invariant proof over a transition system + step-exact differential correspondence")
+CHECKS["C03"] = dict(
+   text="Lean 4 theorems over every input sequence of (authenticated source, bytes) to one honest receiver: broadcast-class hand-over only of a payload directly received from that participant "
+        "(bcast_authentic), at most once per sender and round (bcast_at_most_once), never the placeholder, point-to-point hand-overs sound and verbatim in order, outsiders inert, no panic. "
+        "Tied by step-exact differential runs and direct multiplicity monitors on the real code.",
+   design="4/C03", note=RBC_NOTE, technique="Lean 4 proof by induction over arbitrary input sequences + step-exact differential correspondence")
+
+CHECKS["C04"] = dict(
+   text="Lean 4 theorems over the fault-free session as a transition system (any N >= 2, any number of concurrent senders, rounds and point-to-point messages, every delivery order, no FIFO): "
+        "at quiescence every broadcast was handed over exactly once with its payload at every other member (quiescent_total), every point-to-point message exactly once at its addressee "
+        "(p2p_exactly_once), nothing else is handed over (only_workload), nobody ever concludes equivocation (no_false_equivocation), and every schedule reaches quiescence within a computed bound "
+        "(deliver_decreases / quiescence_reached). Inductive invariant with voucher tracking and a counting argument. Tie: step-exact differential runs on real receivers under biased and exhaustive "
+        "schedules, quiescence monitor on the implementation; ClassifyMsg tables regenerated from source.",
+   design="4/C04", note=RBC_NOTE, technique="Lean 4 inductive-invariant proof over a transition system + step-exact differential correspondence + regenerated tables")
+
 NOT_YET = {}
 
 def main():
